@@ -241,7 +241,16 @@ class OriginAnalysis:
         from .normalize import unroll_constant_loops
         w.run(unroll_constant_loops(self.tree, fi), env)
         out_env = join_all(w.exit_envs)
-        return frozenset(w.returned), (out_env.heap if out_env is not None else env.heap)
+        heap = out_env.heap if out_env is not None else env.heap
+        if w.yielded is not None:
+            # a generator function: the call returns an iterator whose elements are what the body yields
+            g = self.fresh_obj("gen:%s" % fi.qual)
+            heap = dict(heap)
+            for k in [k for k in heap if k[0] is g]:
+                del heap[k]
+            heap[(g, "*")] = frozenset(w.yielded)
+            return frozenset([g]), heap
+        return frozenset(w.returned), heap
 
     def call_function(self, fi, bound_env, call_node):
         if len(self.chain) >= self.MAX_DEPTH or sum(1 for c in self.chain if c[0] == fi.qual) >= 2:
@@ -294,6 +303,7 @@ class _Walker(FlowWalker):
         super().__init__()
         self.an, self.fi, self.tree = an, fi, an.tree
         self.returned = set()
+        self.yielded = None           # generator functions: what they yield (the call returns an iterator over these)
         self.exit_envs = []
 
     def exit(self, kind, node, env):
@@ -457,6 +467,16 @@ class _Walker(FlowWalker):
         return m(node, env)
 
     def ev_Constant(self, node, env):
+        return EMPTY
+
+    def ev_Yield(self, node, env):
+        v = self.ev(node.value, env) if node.value is not None else EMPTY
+        self.yielded = (self.yielded or frozenset()) | v
+        return EMPTY
+
+    def ev_YieldFrom(self, node, env):
+        v = self.ev(node.value, env)
+        self.yielded = (self.yielded or frozenset()) | self.an.contents(v, env)
         return EMPTY
 
     def ev_Name(self, node, env):
